@@ -16,6 +16,8 @@ RELATED = {  # checks run in addition to the property's own one
     "C12i": ["C05", "C02"], "C12j": ["C02"], "C15i": ["C13"], "C15j": ["C13"], "C16i": ["C12"], "C16j": ["C10", "C11"], "C14i": ["C12"], "C14j": ["C05", "C02"],
     "C11i": ["C10"], "C11j": ["C05"], "C01i": ["C15", "C13"], "C01j": ["C04", "C03"], "C04i": ["C01"], "C04j": ["C05", "C14"], "C02i": ["C01", "C15"], "C02j": ["C12", "C05"],
     "C02g": ["C01", "C15"], "C02h": ["C12", "C05"], "C07g": ["C02"], "C11g": ["C03", "C05"], "C14g": ["C12", "C08"], "C14h": ["C01", "C03"],
+    "C01k": ["C10"], "C02k": ["C15", "C13"], "C03k": ["C16", "C11"], "C04k": ["C03"], "C05k": ["C12"], "C06k": ["C03", "C04"], "C07k": ["C02", "C01"], "C09k": ["C15"],
+    "C10k": ["C17"], "C11k": ["C17", "C05"], "C12k": ["C08"], "C13k": ["C03", "C04"], "C14k": ["C02", "C15"], "C15k": ["C08"], "C16k": ["C09"], "C17k": ["C12", "C08"],
 }
 def props_of(name):
     p = os.path.join(SEEDED, name, "props.txt")
